@@ -60,6 +60,9 @@ def run(ctx):
     if extra:
         r.fail(rule, key + ':extra', 'recursion cycle through functions without a termination witness: ' + ', '.join(extra), loc=b.loc)
     cleanup_complete(ctx)
+    # deletion finds the neighbours to clean through the inverse index: it must not lose entries while references remain
+    from .C28 import inverse_only_when_unreferenced
+    inverse_only_when_unreferenced(ctx)
 
 
 def cleanup_complete(ctx, rule='reference-cleanup-complete'):
